@@ -496,8 +496,20 @@ def run(ctx):
     if ctx.shard in (4, 5, 6, 7) or thorough:
         from xlcalculator.xlfunctions import func_xltypes as T_
         S = 'Sheet1'
-        for variant in ('big-sum', 'apostrophes'):
-            if variant == 'big-sum':
+        for variant in ('big-sum', 'apostrophes', 'iterative-solvers'):
+            if variant == 'iterative-solvers':
+                # functions that search for a root: no cell's answer depends
+                # on which search ran before it
+                cells_ = {'A1': -1000, 'A2': 2350, 'A3': -1378.5,
+                          'B1': 43831, 'B2': 44197, 'B3': 44562,
+                          'C1': -500, 'C2': 200, 'C3': 450,
+                          'E1': -100, 'E2': 10, 'E3': 300,
+                          'D1': '=XIRR(A1:A3,B1:B3)',
+                          'D2': '=XIRR(C1:C3,B1:B3)',
+                          'D3': '=XIRR(E1:E3,B1:B3)', 'D4': '=IRR(C1:C3)',
+                          'D5': '=IRR(E1:E3)', 'D6': '=XIRR(C1:C3,B1:B3)*1'}
+                probes_ = ['D1', 'D2', 'D3', 'D4', 'D5', 'D6']
+            elif variant == 'big-sum':
                 n_ = rng.choice([256, 300, 400])
                 cells_ = {f'A{i}': i for i in range(1, n_ + 1)}
                 cells_.update({'B1': f'=SUM(A1:A{n_})',
@@ -624,6 +636,13 @@ def run(ctx):
             ('error-in-range', {'A1': 0, 'B1': '=1/A1', 'B2': 2,
                                 'C1': '=SUM(B1:B2)', 'C2': '=MAX(B1:B2)',
                                 'C3': '=SUM(B1,B2)'}),
+            # ... read by functions that look at a range without handing
+            # its errors on during argument validation
+            ('error-in-range-inspected', {
+                'A1': 0, 'B1': '=1/A1', 'B2': 2, 'B3': '=SQRT(A1-1)',
+                'B4': '=B2/A1', 'C1': '=OR(B1:B4)', 'C2': '=AND(B1:B4)',
+                'C3': '=COUNT(B1:B4)', 'C4': '=COUNTA(B1:B4)',
+                'C5': '=ISERROR(B1)', 'C6': '=COUNTIF(B1:B4,2)'}),
             ('error-literal', {'A1': 1, 'B1': '=IF(A1>5,A1,#N/A)',
                                'C1': '=SUM(B1,2,1)', 'C2': '=IF(B1,1,2)',
                                'C3': '=AND(A1,B1)'}),
